@@ -71,6 +71,28 @@ Example atof_buffer_guard_boundary :
 Proof. vm_compute. repeat split. right. reflexivity. Qed.
 Print Assumptions atof_buffer_guard_boundary.
 
+(* the writers: for every constant-guarded store run found in XalanUTF8Writer / XalanUTF16Writer /
+   XalanOtherEncodingWriter (guard constant, number of stores and decrement regenerated from the headers)
+   and every fill state of the buffer, all stores land inside m_buffer and the unsigned counter does not
+   wrap; same for the runs guarded by their own length *)
+Theorem writer_runs_fit : forall cls k n d, In (cls, k, n, d) writer_runs ->
+  forall r, (r <= writer_size cls)%N ->
+  exists r2, guarded_run (writer_size cls) k n d r = Some r2 /\ (r2 <= writer_size cls)%N.
+Proof. exact writer_runs_fit_l. Qed.
+Print Assumptions writer_runs_fit.
+
+Theorem writer_length_runs_fit : forall cls how, In (cls, how) writer_length_runs ->
+  forall len r, (len <= writer_size cls)%N -> (r <= writer_size cls)%N ->
+  exists r2, guarded_run (writer_size cls) len len len r = Some r2 /\ (r2 <= writer_size cls)%N.
+Proof. exact writer_length_runs_fit_l. Qed.
+Print Assumptions writer_length_runs_fit.
+
+Example writer_run_off_by_one_is_caught :   (* a four-store run guarded by '< 3' with exactly 3 units left *)
+  guarded_run 512 3 4 4 3 = None /\ guarded_run 512 4 4 4 3 = Some 508%N /\ guarded_run 512 4 4 4 4 = Some 0%N /\
+  existsb (fun e => match e with (_, k, n, _) => (k =? 4)%N && (n =? 4)%N end) writer_runs = true.
+Proof. vm_compute. repeat split. Qed.
+Print Assumptions writer_run_off_by_one_is_caught.
+
 (* XPathProcessorImpl::tokenize: the scans for the closing quote of a string literal read pat[k]
    only for k < nChars, for every string, start index and both quote characters *)
 Theorem quote_scan_in_bounds : forall name test, In (name, test) quote_scan_tests ->
